@@ -12,7 +12,8 @@ while / with / try; comments at any column, also between blocks and with quotes 
 blank-with-spaces lines; bracketed continuation lines with arbitrary (also zero) indentation; backslash
 continuations (with blanks around); triple-quoted, raw, bytes and f-strings with under-indented lines, `#`
 and quotes inside; decorators (plain, with multi-line arguments, wrapping with functools.wraps);
-multi-line signatures; several lambdas per line with equal / different signatures, nested lambdas,
+multi-line signatures; several simple statements per physical line joined by `;` (at module level, in class
+bodies and in function bodies, each creating lambdas with equal / different signatures); several lambdas per line with equal / different signatures, nested lambdas,
 lambdas spanning lines, lambdas as default values and decorator arguments.
 
 `unsafe=True` adds the constructs of the known findings (backslash-newline inside a string literal,
@@ -158,7 +159,7 @@ class Gen(object):
         elif k < 0.4:
             self.emit(ind, 'x = %s  # trailing %s' % (self.expr(), r.choice(['', "'", '"""', '\\ z'])))
         elif k < 0.5:
-            self.emit(ind, 'x = 1; y = %s' % self.string())
+            self.emit(ind, 'x = 1; y = %s%s' % (self.string(), r.choice(['', '; x = 3', ';'])))
         elif k < 0.6:
             self.emit(ind, self.string())
         elif k < 0.75:
@@ -176,9 +177,33 @@ class Gen(object):
         else:
             self.emit(ind, 'pass')
 
+    def semi_lambdas(self, ind):
+        """several simple statements on one physical line, each (or some) creating a lambda"""
+        r = self.rnd
+        parts = []
+        regs = []
+        sigs = r.choice([['a', 'a'], ['a', 'a, b'], ['a', 'b', 'a'], [None, None], ['', 'a=1'], ['a', None, 'a']])
+        for p in sigs:
+            if r.random() < 0.25:
+                parts.append(r.choice(['x = 1', 'pass', 'y = %s' % r.choice(["'s;t'", '"#;"', '(1, 2)'])]))
+            t, ids = self.lam(p)
+            if '\n' in t or r.random() < 0.3:
+                t = '(%s)' % t
+            parts.append('REG[%r] = %s' % ('l%d' % ids[0], t))
+            regs.append(ids)
+        if r.random() < 0.3:
+            parts.append(r.choice(['x = 2', 'pass']))
+        sep = r.choice(['; ', ';', ' ; ', ';  '])
+        self.emit(ind, sep.join(parts) + r.choice(['', '', ';', '  # c; d']))
+        for ids in regs:
+            self.nested_lams(ind, ids)
+
     def lambdas(self, ind):
         r = self.rnd
         k = r.random()
+        if r.random() < 0.3:
+            self.semi_lambdas(ind)
+            return
         if k < 0.35:
             t, ids = self.lam()
             self.reg_lams(ind, [(t, ids)])
